@@ -4,8 +4,8 @@ import Model.Basic
 
 `isOption s mode = (pairs, is)` mirrors `isOption(s, mode, false)`.
 The regular expression `(?s)^(--?)([^=]+)(.*?)$` is modelled directly: the dashes, then the longest
-run of non-`=` bytes (at least one), then the rest.  `--` followed by nothing or by `=` backtracks to a
-single dash whose name starts with `-`.
+run of non-`=` bytes (at least one), then the rest.  `--` followed by `=` backtracks to a single dash whose name
+is `-`; since the token starts with `--` it is nevertheless handled by the long-option branch.
 -/
 namespace GoModel
 
@@ -32,7 +32,8 @@ def splitDashes (s : Str) : Option (Bool × Str × Str) :=
   match s with
   | 45 :: 45 :: c :: r =>
     if c != chEq then some (true, nameOf (c :: r), restOf (c :: r))
-    else some (false, [chDash], c :: r)          -- `--=…`: single dash, name `-`
+    else some (true, [chDash], c :: r)           -- `--=…`: the regex backtracks to one dash and the name `-`;
+                                                 -- a token starting with `--` is still a long option
   | 45 :: c :: r =>
     if c != chEq then some (false, nameOf (c :: r), restOf (c :: r)) else none
   | _ => none
